@@ -7,6 +7,7 @@ import (
 	"sort"
 	"strings"
 	"sync"
+	"sync/atomic"
 	"time"
 
 	"github.com/go-ldap/ldap/v3"
@@ -19,7 +20,7 @@ func init() {
 	register(&Check{
 		ID: "C04", Level: "exploration", Primary: "script_shapes", EvalCount: "responses_checked",
 		Rule: "a response script = constructor in {NewResponse, NewBindResponse, NewSearchDoneResponse, NewSearchResponseEntry, NewExtendedResponse, NewModifyResponse} x a PRNG-chosen subset of that " +
-			"constructor's documented options x 0..4 setters (SetResultCode, SetDiagnosticMessage, SetMatchedDN, SetControls, AddAttribute) with values from an adversarial pool (result codes 0..32767, application " +
+			"constructor's documented options (in 15% of the scripts of the typed constructors also options the constructor does not support - an application code, result code, strings, attributes - placed before or after the supported ones: they must not change what goes out) x 0..4 setters (SetResultCode, SetDiagnosticMessage, SetMatchedDN, SetControls, AddAttribute) with values from an adversarial pool (result codes 0..32767, application " +
 			"codes 0..30, empty/binary/invalid-UTF-8 strings, 127/128/65535/65536/200000-byte strings, 0..n attributes x 0..m values, all control kinds); the handler runs the script for a request whose message ID is drawn " +
 			"from 0..2^31-1, and the strict parser checks the one frame it produced against a last-writer-wins model (fields never set are unconstrained). A quarter of the single-response requests write their response object also before some of their setters (each write must show the state at that point); a fifth of the connections park a request and let a LATER request's handler answer it through its own writer (the frame must still carry the parked request's message ID); a third of the requests get 2..3 responses. " +
 			"distinct_nontrivial = distinct (constructor, option subset, setter sequence, length classes, message-id class) signatures",
@@ -32,7 +33,7 @@ func init() {
 			}
 			return ps
 		},
-		MinObserved: []string{"responses_checked", "goldap_responses_checked", "responses_from_a_request_with_several_responses", "responses_written_again_after_further_setters", "requests_answered_by_another_requests_handler"},
+		MinObserved: []string{"responses_checked", "goldap_responses_checked", "responses_from_a_request_with_several_responses", "responses_written_again_after_further_setters", "requests_answered_by_another_requests_handler", "responses_built_with_options_their_constructor_does_not_support"},
 	})
 }
 
@@ -60,6 +61,12 @@ type c04Script struct {
 	// Early: the same response object is also written before setter k is applied (after k setters), for every k
 	// listed; each such write must show exactly what had been set by then, and must not freeze the object.
 	Early []int `json:"early_writes_before_setter,omitempty"`
+	// options the constructor does not support (it ignores them): they must not change what goes out
+	FApp    *int    `json:"foreign_application_code,omitempty"`
+	FCode   *int    `json:"foreign_result_code,omitempty"`
+	FStr    *[]byte `json:"foreign_diag_and_matched,omitempty"`
+	FAttrs  bool    `json:"foreign_attributes,omitempty"`
+	FBefore bool    `json:"foreign_options_first,omitempty"`
 }
 
 // upTo is the script as it stood after k setters (what an early write must show).
@@ -170,6 +177,20 @@ func genScript(r *Rand, ctor string) *c04Script {
 		}
 	}
 	s.OptOrder = r.Perm(5)
+	if ctor != "NewResponse" && r.Chance(15) {
+		s.FBefore = r.Bool()
+		s.FApp = ip(r.Intn(31))
+		switch ctor {
+		case "NewModifyResponse":
+			s.FAttrs = r.Bool()
+		case "NewSearchResponseEntry":
+			s.FCode = ip(c04Code(r))
+			s.FStr = bp(advBytes(r))
+		default:
+			s.FStr = bp(advBytes(r))
+			s.FAttrs = r.Bool()
+		}
+	}
 	for i, n := 0, r.Intn(5); i < n; i++ {
 		var kinds []string
 		switch ctor {
@@ -198,6 +219,8 @@ func genScript(r *Rand, ctor string) *c04Script {
 	}
 	return s
 }
+
+var c04Foreign atomic.Int64
 
 type c04Parked struct {
 	req  *gldap.Request
@@ -320,6 +343,27 @@ func (s *c04Script) build(r *gldap.Request) *c04Built {
 			if s.HasAttrs {
 				opts = append(opts, gldap.WithAttributes(s.OptAttrs))
 			}
+		}
+	}
+	var foreign []gldap.Option
+	if s.FApp != nil {
+		foreign = append(foreign, gldap.WithApplicationCode(*s.FApp))
+	}
+	if s.FCode != nil {
+		foreign = append(foreign, gldap.WithResponseCode(*s.FCode))
+	}
+	if s.FStr != nil {
+		foreign = append(foreign, gldap.WithDiagnosticMessage(string(*s.FStr)), gldap.WithMatchedDN(string(*s.FStr)))
+	}
+	if s.FAttrs {
+		foreign = append(foreign, gldap.WithAttributes(map[string][]string{"foreign": {"x"}}))
+	}
+	if len(foreign) > 0 {
+		c04Foreign.Add(1)
+		if s.FBefore {
+			opts = append(foreign, opts...)
+		} else {
+			opts = append(opts, foreign...)
 		}
 	}
 	b := &c04Built{s: s}
@@ -697,6 +741,7 @@ func c04Scripts(c *Ctx, useTLS bool) {
 		}(w)
 	}
 	wg.Wait()
+	c.Count("responses_built_with_options_their_constructor_does_not_support", c04Foreign.Swap(0))
 }
 
 // c04GoLDAP pushes Bind and Search flows through go-ldap as a second observer.
